@@ -12,6 +12,7 @@
 #include "hcommon.h"
 
 #include <fcntl.h>
+#include <sys/ioctl.h>
 #include <sys/socket.h>
 #include <sys/stat.h>
 
@@ -34,6 +35,8 @@ struct side {
     struct xcm_socket *s;
     int blocking;
     int fd0;                 /* xcm_fd at creation */
+    int established;         /* some operation has succeeded on the connection (a TLS handshake is over) */
+    int tcp_fd;              /* the emulated-TCP descriptor that carries the connection (-1: not a TCP-class transport / unknown) */
     struct op ops[MAXOPS];
     int nops, pc;
     /* chan ledger, direction "this side sends" */
@@ -326,6 +329,24 @@ static int cond_wait(struct side *x, int cond, const char *why)
         return -1;
     }
     check_fd_stable(x);
+    /* C16's converse clause, at EVERY wait and not only at the final quiescent state: if bytes for this end are
+       sitting in the kernel's queue of the connection's descriptor while RECEIVABLE is awaited, the socket's read
+       interest must be registered, i.e. xcm_fd must be readable now (level-triggered; whether the bytes already
+       make a complete message is irrelevant - the library has to look at them).  A socket that dropped its read
+       interest while it waits to write is caught here even when something else would wake it later. */
+    if ((cond & XCM_SO_RECEIVABLE) && x->established && x->tcp_fd >= 0 && env_is_emulated_tcp(x->tcp_fd)) {
+        int queued = 0;
+        ioctl(x->tcp_fd, FIONREAD, &queued);
+        if (queued > 0 && !(fd_readable_mask(x->fd0) & POLLIN)) {
+            char sig[160];
+            snprintf(sig, sizeof sig, "C16/not-readable-though-data-queued/awaiting=%d/tp=%s", cond, g_tp);
+            V("C16", sig, "%s awaits condition %d with %d byte(s) queued on the connection's descriptor, but xcm_fd is not readable (%s)",
+              x->name, cond, queued, why);
+            snprintf(sig, sizeof sig, "C04/read-interest-dropped-while-waiting/tp=%s", g_tp);
+            V("C04", sig, "%s awaits RECEIVABLE (condition %d) with data queued and is not woken (%s)", x->name, cond, why);
+        }
+        mc_count(5, 1);
+    }
     mc_wait_readable(x->fd0, why);
     return 0;
 }
@@ -426,6 +447,8 @@ static int do_send(struct side *x, struct op *o)
         check_fd_stable(x);
         if (rc >= 0) {
             mc_set_progress(1);
+            /* (an accepted send proves nothing: the TLS messaging layer buffers a message while the handshake is still
+               under way; only a successful finish or receive sets x->established) */
             if (g_bytestream) {
                 sent_total += rc;
                 if (sent_total < o->len)
@@ -504,6 +527,7 @@ static int do_recv(struct side *x, struct op *o, int until_eof)
         check_fd_stable(x);
         if (rc > 0) {
             mc_set_progress(1);
+            x->established = 1;
             if (until_eof)
                 continue;
             if (g_bytestream) {
@@ -551,6 +575,7 @@ static int do_finish(struct side *x)
         check_fd_stable(x);
         if (rc == 0) {
             mc_set_progress(1);
+            x->established = 1;
             return 0;
         }
         if (transient(err)) {
@@ -603,6 +628,7 @@ static int run_loop_style(struct side *x)
                 on_received(x, buf, rc, cap);
                 ri++;
                 progressed = 1;
+                x->established = 1;
             }
             check_counters(x, "xcm_receive", rc < 0 && err == EAGAIN);
             check_fd_stable(x);
@@ -724,6 +750,12 @@ static void task_a(void *arg)
     mc_observe("A connected");
     if (!x->blocking)
         x->fd0 = xcm_fd(x->s);
+    x->tcp_fd = -1;
+    if (env_connect_log_count() > 0) {
+        char ip[64];
+        int port;
+        env_connect_log_entry(env_connect_log_count() - 1, &x->tcp_fd, ip, sizeof ip, &port);
+    }
     run_script(x);
 }
 
@@ -766,6 +798,7 @@ static void task_b(void *arg)
     mc_observe("B accepted");
     if (!x->blocking)
         x->fd0 = xcm_fd(x->s);
+    x->tcp_fd = A.tcp_fd >= 0 ? env_conn_fd_peer(A.tcp_fd) : -1;
     run_script(x);
 }
 
@@ -1109,8 +1142,8 @@ static void scenario(const char *params)
     g_sig = param_int(params, "sig", 0);
     g_counters = param_int(params, "cnt", 1);
     g_bytestream = !strcmp(g_tp, "btcp") || !strcmp(g_tp, "btls");
-    A.name = "A"; A.idx = 0; A.inflight = -1;
-    B.name = "B"; B.idx = 1; B.inflight = -1;
+    A.name = "A"; A.idx = 0; A.inflight = -1; A.tcp_fd = -1;
+    B.name = "B"; B.idx = 1; B.inflight = -1; B.tcp_fd = -1;
     g_buf[0] = malloc(1 << 21);
     g_buf[1] = malloc(1 << 21);
     A.stream = malloc(1 << 18);
